@@ -1,7 +1,7 @@
 (** C08 — Event log is append-only, stably ordered; range queries return exact windows.
     Only property statements live here; each is closed by [exact] of a lemma proved in
     Proofs/, and followed by Print Assumptions. *)
-From Orbit Require Import Spec.Statements Proofs.WindowProofs.
+From Orbit Require Import Spec.Statements Proofs.WindowProofs Proofs.GlobalProofs.
 
 (** A query by gt/gte/lt/lte and amount on a duplicate-free listing [L] returns exactly
     the contiguous window [window L b a] (defined directly as a slice in Spec/Window.v),
@@ -19,6 +19,38 @@ Theorem C08_get :
     NoDup (hashes L) -> In x L -> evlog_query L (BGte (eh x)) (Some 1) = [x].
 Proof. exact get_entry. Qed.
 Print Assumptions C08_get.
+
+(** Merging or writing never removes a listed entry and never changes the relative order
+    of two listed entries, on any replica, for any step of any reachable state. *)
+Theorem C08_monotone :
+  forall marks cont acc n dbid okop g s i rs rs',
+    greach marks cont acc okop n dbid g -> admissible okop g s ->
+    nth_error (greps g) i = Some rs ->
+    nth_error (greps (gstep_run marks cont acc g s)) i = Some rs' ->
+    incl (values (rlog rs)) (values (rlog rs')) /\
+    forall x y, before x y (values (rlog rs)) -> before x y (values (rlog rs')).
+Proof. exact step_monotone. Qed.
+Print Assumptions C08_monotone.
+
+(** A writer's own entries are listed in the order it wrote them ... *)
+Theorem C08_writer_order :
+  forall marks cont acc n dbid okop g i rs p q e1 e2,
+    greach marks cont acc okop n dbid g -> nth_error (greps g) i = Some rs ->
+    nth_error (guniv g) p = Some e1 -> nth_error (guniv g) q = Some e2 -> (p < q)%nat ->
+    ecid e1 = ecid e2 -> In e1 (values (rlog rs)) -> In e2 (values (rlog rs)) ->
+    before e1 e2 (values (rlog rs)).
+Proof. exact writer_order. Qed.
+Print Assumptions C08_writer_order.
+
+(** ... and after everything it had seen when writing. *)
+Theorem C08_after_seen :
+  forall marks cont acc n dbid okop g r h refs o rs,
+    greach marks cont acc okop n dbid g -> admissible okop g (GWrite r h refs o) ->
+    nth_error (greps g) r = Some rs ->
+    forall e, In e (guniv (gstep_run marks cont acc g (GWrite r h refs o))) -> ~ In e (guniv g) ->
+    eh e = h /\ forall x, In x (lents (rlog rs)) -> key_lt x e.
+Proof. exact write_after_seen. Qed.
+Print Assumptions C08_after_seen.
 
 (** Non-vacuity: a concrete three-entry listing and a window in its middle. *)
 Example C08_window_example :
